@@ -60,6 +60,14 @@ func (s *store) GetTimestampOracle(ctx context.Context) (timestamp uint64, err e
 
 // Get implements storage.KvStorage interface
 func (s *store) Get(ctx context.Context, key []byte) (val []byte, err error) {
+	// the skip list is not safe for a lookup that runs next to a commit
+	s.mu.Lock()
+	defer s.mu.Unlock()
+	return s.get(key)
+}
+
+// get looks the key up; the caller holds the lock (a batch holds it from BeginBatchWrite to Commit)
+func (s *store) get(key []byte) (val []byte, err error) {
 	elem := s.skl.Get(key)
 	if elem == nil {
 		return nil, storage.ErrKeyNotFound
